@@ -166,4 +166,103 @@ impl<'a> LTr<'a> {
         }
         self.write_back(wb, nb)
     }
+
+    /// `for x in list { body }` over a list value; the body may leave the function (`return`, `?`)
+    fn for_list(&mut self, f: &ExprForLoop, var: &str) -> R<()> {
+        if self.closure {
+            return Err("nested loop".into());
+        }
+        if f.label.is_some() {
+            return Err("labelled loop".into());
+        }
+        let (xs, xt) = self.expr(&f.expr)?;
+        let elem = match xt {
+            LTy::List(t) => *t,
+            _ => return Err("for loop over something other than `.iter_mut()` or a list".into()),
+        };
+        if !self.state.is_empty() {
+            return Err("list loop in a function with `&mut` state".into());
+        }
+        let carried = self.carried_of(&f.body, &[var.to_string()]);
+        let pat = Self::tuple_pat(&carried);
+        let res = self.fresh();
+        let ex = self.exit(&self.panic_res());
+        self.emit(format!("let some {res} := Rs.L.forEach {xs} {pat} (fun {pat} {var} => do"));
+        self.ind += 2;
+        for c in &carried {
+            self.emit(format!("let mut {c} := {c}"));
+        }
+        let saved_vars = self.vars.clone();
+        self.vars.insert(var.to_string(), elem);
+        self.closure = true;
+        self.loop_ret = true;
+        let r = self.block(&f.body, false);
+        self.closure = false;
+        self.loop_ret = false;
+        self.vars = saved_vars;
+        if r?.is_some() {
+            return Err("loop body with a value".into());
+        }
+        self.emit(format!("pure (Rs.Step.next {pat}))"));
+        self.ind -= 1;
+        self.emit(format!("| {ex}"));
+        self.ind -= 1;
+        let r = self.fresh();
+        let early = if self.is_io() { self.exit(&r) } else { self.exit(&format!("some {r}")) };
+        self.emit(format!("match {res} with"));
+        self.emit(format!("| .ret {r} => {early}"));
+        if carried.is_empty() {
+            self.emit("| .done _ => pure ()".into());
+        } else {
+            let s = self.fresh();
+            self.emit(format!("| .done {s} => {pat} := {s}"));
+        }
+        Ok(())
+    }
+
+    /// `list.fold(init, |acc, x| body)`: the body is an expression over `acc` and `x` (it may panic)
+    fn fold(&mut self, xs: &str, elem: &LTy, init: &Expr, clo: &Expr) -> R<(String, LTy)> {
+        if self.closure {
+            return Err("nested loop".into());
+        }
+        let c = match clo {
+            Expr::Closure(c) if c.inputs.len() == 2 && c.capture.is_none() => c,
+            _ => return Err("fold argument".into()),
+        };
+        let names: Vec<String> = c.inputs.iter().map(|p| match p { Pat::Ident(id) if id.by_ref.is_none() && id.mutability.is_none() => Ok(id.ident.to_string()), _ => Err("fold closure parameter".to_string()) }).collect::<R<Vec<_>>>()?;
+        let hint = self.hint.take();
+        let (iv, it) = self.expr(init)?;
+        let acc_ty = if it != LTy::Unknown { it } else { hint.ok_or("fold accumulator of unknown type")? };
+        let res = self.fresh();
+        let ex = self.exit(&self.panic_res());
+        self.emit(format!("let some {res} := Rs.L.foldM {xs} ({iv} : {}) (fun {} {} => do", acc_ty.lean(), names[0], names[1]));
+        self.ind += 2;
+        let saved_vars = self.vars.clone();
+        self.vars.insert(names[0].clone(), acc_ty.clone());
+        self.vars.insert(names[1].clone(), elem.clone());
+        self.closure = true;
+        let r = (|| -> R<()> {
+            match &*c.body {
+                Expr::Match(m) => {
+                    let t = self.fresh();
+                    self.match_arms(m, Some(&format!("let {t} : {}", acc_ty.lean())))?;
+                    self.emit(format!("pure {t}"));
+                }
+                e => {
+                    let (v, _) = self.expr(e)?;
+                    self.emit(format!("pure {v}"));
+                }
+            }
+            Ok(())
+        })();
+        self.closure = false;
+        self.vars = saved_vars;
+        r?;
+        let last = self.lines.pop().unwrap();
+        self.lines.push(format!("{last})"));
+        self.ind -= 1;
+        self.emit(format!("| {ex}"));
+        self.ind -= 1;
+        Ok((res, acc_ty))
+    }
 }
